@@ -24,6 +24,7 @@ pub struct BCfg {
     pub v6: bool,
     pub ip_mtu: usize,
     pub caps: usize,
+    pub poison: u8,
 }
 
 #[derive(Clone, Debug, PartialEq)]
@@ -34,6 +35,9 @@ pub enum BEv {
     UdpSmall,
     UdpBig,
     UdpMulticast,
+    /// a multicast / broadcast datagram that needs fragmentation: its header stays behind in the
+    /// interface's fragmentation buffer for the next fragmented packet to be written over
+    UdpBigMulticast,
     IcmpEchoOut,
     EchoInBig,
     UdpClosedIn,
@@ -44,12 +48,13 @@ pub enum BEv {
     /// toggle: the device accepts only ONE frame per event from now on / no limit again
     SlowDevice,
 }
-const EVENTS: [BEv; 13] = [
+const EVENTS: [BEv; 14] = [
     BEv::Tick,
     BEv::Plus(1_100_000),
     BEv::UdpSmall,
     BEv::UdpBig,
     BEv::UdpMulticast,
+    BEv::UdpBigMulticast,
     BEv::IcmpEchoOut,
     BEv::EchoInBig,
     BEv::UdpClosedIn,
@@ -96,7 +101,9 @@ impl EgBfs {
             let e = g.entry(self.cfg.name.to_string()).or_insert_with(|| BAgg { agg: Agg::default(), distinct: HashSet::new(), validations: 0 });
             for rec in new {
                 e.validations += 1;
-                if e.distinct.insert(fp128(&rec.frame)) {
+                // distinct (frame, verdict) pairs: what a frame completes depends on the history,
+                // and which history reaches a frame first depends on thread scheduling
+                if e.distinct.insert(fp128(&(&rec.frame, &rec.verdict.shape, &rec.verdict.completed, rec.verdict.findings.len()))) {
                     e.agg.record(&rec.frame, &rec.verdict);
                 }
             }
@@ -126,7 +133,7 @@ impl Harness for EgBfs {
     type Cfg = BCfg;
     type Ev = BEv;
     fn new(cfg: &BCfg) -> EgBfs {
-        let rc = RigCfg { medium: cfg.medium, ip_mtu: cfg.ip_mtu, caps: cfg.caps, slaac: false, v4_addr: !cfg.v6, ll_addr: true, ula_addr: cfg.v6 };
+        let rc = RigCfg { medium: cfg.medium, ip_mtu: cfg.ip_mtu, caps: cfg.caps, slaac: false, v4_addr: !cfg.v6, ll_addr: true, ula_addr: cfg.v6, poison: cfg.poison };
         let mut rig = Rig::new(rc);
         let udp = udp_socket(&mut rig, 7000, None);
         let mut s = icmp::Socket::new(
@@ -175,6 +182,12 @@ impl Harness for EgBfs {
             BEv::UdpMulticast => {
                 let dst: Vec<u8> = if v6 { ALL_NODES6.to_vec() } else { vec![255; 4] };
                 let _ = self.rig.sockets.get_mut::<udp::Socket>(self.udp).send_slice(&pat(5, seq as u8), IpEndpoint::new(ipa(&dst), 9000));
+                self.rig.settle();
+            }
+            BEv::UdpBigMulticast => {
+                let dst: Vec<u8> = if v6 { ALL_NODES6.to_vec() } else { vec![255; 4] };
+                let n = self.big();
+                let _ = self.rig.sockets.get_mut::<udp::Socket>(self.udp).send_slice(&pat(n, seq as u8), IpEndpoint::new(ipa(&dst), 9000));
                 self.rig.settle();
             }
             BEv::IcmpEchoOut => {
@@ -240,13 +253,19 @@ impl Harness for EgBfs {
 
 pub fn configs(tier: Tier) -> Vec<(BCfg, usize)> {
     let d = if tier == Tier::Quick { 4 } else { 6 };
+    // 14 events: the deepest level is kept for the 802.15.4 configuration (two fragmentation paths, read-modify-write header setters)
+    let d5 = d.min(5);
+    // quick tier: depth 4 where fragmentation paths and header compression live, 3 elsewhere
+    let (d, d5, dl) = if tier == Tier::Quick { (4, 4, 3) } else { (d, d5, d5) };
     vec![
-        (BCfg { name: "seq-eth-v4-mtu576", medium: Medium::Ethernet, v6: false, ip_mtu: 576, caps: 0 }, d),
-        (BCfg { name: "seq-eth-v4-mtu68", medium: Medium::Ethernet, v6: false, ip_mtu: 68, caps: 0 }, d),
-        (BCfg { name: "seq-ip-v4-mtu576", medium: Medium::Ip, v6: false, ip_mtu: 576, caps: 0 }, d),
-        (BCfg { name: "seq-eth-v6-mtu1280", medium: Medium::Ethernet, v6: true, ip_mtu: 1280, caps: 0 }, d),
-        (BCfg { name: "seq-154-v6", medium: Medium::Ieee802154, v6: true, ip_mtu: 127, caps: 0 }, d),
-        (BCfg { name: "seq-154-v6-all-tx-off", medium: Medium::Ieee802154, v6: true, ip_mtu: 125, caps: 6 }, d.min(5)),
+        (BCfg { name: "seq-eth-v4-mtu576", medium: Medium::Ethernet, v6: false, ip_mtu: 576, caps: 0, poison: POISON }, d5),
+        (BCfg { name: "seq-eth-v4-mtu68", medium: Medium::Ethernet, v6: false, ip_mtu: 68, caps: 0, poison: POISON }, dl),
+        (BCfg { name: "seq-ip-v4-mtu576", medium: Medium::Ip, v6: false, ip_mtu: 576, caps: 0, poison: POISON }, dl),
+        (BCfg { name: "seq-eth-v6-mtu1280", medium: Medium::Ethernet, v6: true, ip_mtu: 1280, caps: 0, poison: POISON }, dl),
+        (BCfg { name: "seq-154-v6", medium: Medium::Ieee802154, v6: true, ip_mtu: 127, caps: 0, poison: POISON }, d),
+        (BCfg { name: "seq-154-v6-all-tx-off", medium: Medium::Ieee802154, v6: true, ip_mtu: 125, caps: 6, poison: POISON }, dl),
+        // the complementary transmit-buffer pre-fill
+        (BCfg { name: "seq-154-v6-prefill-5a", medium: Medium::Ieee802154, v6: true, ip_mtu: 127, caps: 0, poison: POISON2 }, d5),
     ]
 }
 pub fn cfg_by_debug(s: &str) -> Option<BCfg> {
